@@ -88,3 +88,10 @@ add("C19", "E2 callspace", "exploration",
     "Every toggle/decorate/call history of length <=4 (quick) / <=5 (thorough) over 7 operations x 7 callable kinds (def, method, classmethod, staticmethod, property, dataclass __init__, function in a hooked module) x 2 typecheckers x no_type_check placements, every switch value x item-name casing x prior state, and one subprocess per environment value are executed; while off, the decorated behaviour (result / exception identity, body run count, argument identities, no context pushed) is identical to the same source compiled without the jaxtyped line; after re-enabling, ill-typed calls raise again without re-decoration; accepted spellings are exactly {0,1,true,false in any case, bool}.",
     "Reference = the same source without the decorator; interpreter-made TypeErrors compared by type and message; don't-care: non-bool 0/1/1.0 values, non-lower-case item names, no_type_check applied to a classmethod/staticmethod object, old-style double decorator and typechecker=None under disable.",
     "DESIGN.md §6 C19")
+
+ENGINES[3]["serves_properties"] += ["C12"]
+add("C12", "E4 histories", "model_checking",
+    "exhaustive operation-history enumeration followed by a probe battery (differential against the pristine process) plus single-fault enumeration at every call-out point",
+    "Every history of <=2 (quick) / <=3 (thorough) operations over a catalogue of 27 public-API activities (passing/failing/raising array and PyTree checks in and outside contexts, custom nodes, leaf __instancecheck__, nested PyTrees, '?' misuse, decorated calls ok/ill-typed/raising, decoration new/old/old-generator with a shared annotation object, dataclass, pickle/copy, hook install+import+uninstall, config toggle, name format) is executed and followed by a 30-observation probe battery that must equal the pristine battery; every operation is re-executed with an Exception and a BaseException injected at each of its call-out points (shape/dtype/repr, __instancecheck__, flatten, symbolic functions, body, typechecker, module body), each followed by the battery.",
+    "Call-outs are harness-owned objects; the battery uses public API plus two internal reads (stack depth, transient flags); after a violation the state is restored by a best-effort reset and verified pristine before continuing.",
+    "DESIGN.md §6 C12")
